@@ -144,6 +144,15 @@ func checkFor(prop string) ModelCheck {
 				return lab(e, "latency_complete", "latency_3_distinct_delays") && anyLab(e, "ping_answered_again", "ping_unknown_id", "ping_replay_after_completion", "latency_restart")
 			},
 		}
+	case "C19":
+		p := prof("c19", map[Op]int{OpReceipt: 45, OpJoin: 5, OpClose: 2, OpEntityAdd: 5})
+		p.Setup = 2
+		return ModelCheck{Prop: "C19", Part: "H", Profile: p,
+			Rule: genRule + "weights favour receipt submissions (each field empty or not) from joined and not-joined connections against a queue of capacity 1, 2 or 128 that nobody drains; every submission must get exactly one answer - RECEIPT_RESPONSE, BAD_REQUEST for an empty field, SERVER_TOO_BUSY when the queue is full - at once, the queue must hold exactly the accepted receipts, and the connection must stay usable; non-trivial = distinct script with an accepted receipt and a submission against a full queue or with an empty field",
+			NT: func(e *Exec, sc Script) bool {
+				return lab(e, "receipt_accepted") && anyLab(e, "receipt_queue_full", "receipt_empty_field")
+			},
+		}
 	}
 	panic("no model check for " + prop)
 }
@@ -172,6 +181,8 @@ func TestC16Model(t *testing.T) { checkFor("C16").Run(t) }
 func TestC16Wire(t *testing.T)  { wire(checkFor("C16")).Run(t) }
 func TestC11Model(t *testing.T) { checkFor("C11").Run(t) }
 func TestC11Wire(t *testing.T)  { wire(checkFor("C11")).Run(t) }
+func TestC19Model(t *testing.T) { checkFor("C19").Run(t) }
+func TestC19Wire(t *testing.T)  { wire(checkFor("C19")).Run(t) }
 func TestC18Model(t *testing.T) { checkFor("C18").Run(t) }
 func TestC18Wire(t *testing.T)  { wire(checkFor("C18")).Run(t) }
 
